@@ -71,7 +71,8 @@ pub fn cases(prop: &str, tier: Tier, seed: u64) -> Vec<CaseDesc> {
                 let specs = g(p, nq, nt);
                 for (i, s) in specs.into_iter().enumerate() {
                     let cfg = [26u32, 26, 26, 8, 10, 90][i % 6];
-                    out.push(CaseDesc { spec: s, scenario: format!("edit;cfg={};seed={}", cfg, seed.wrapping_add(i as u64)) });
+                    let first = if i % 3 == 1 { ";gcfirst" } else { "" };
+                    out.push(CaseDesc { spec: s, scenario: format!("edit;cfg={};seed={}{}", cfg, seed.wrapping_add(i as u64), first) });
                 }
             }
             // configurations: names/producers off
@@ -83,6 +84,11 @@ pub fn cases(prop: &str, tier: Tier, seed: u64) -> Vec<CaseDesc> {
             // valid corpus (completeness), feature probes, deep nesting, mutations (soundness + totality)
             let mut base: Vec<String> = disk_corpus(true);
             base.extend(corpus::probe_specs());
+            // every census module must be accepted (completeness) and is a base for mutation
+            base.extend(crate::census::attr_specs());
+            base.extend(crate::census::op_census_specs());
+            base.extend(corpus::gcedge_specs());
+            base.extend(crate::census::leb_specs(false).into_iter().filter(|s| !s.contains(":16384:") && !s.contains(":16383:")));
             for (p, n) in [("full", if q { 1500 } else { 40_000 }), ("mvp", if q { 300 } else { 10_000 }), ("stable", if q { 400 } else { 10_000 }), ("customs", if q { 200 } else { 5_000 }), ("names", if q { 200 } else { 5_000 })] {
                 base.extend(crate::gen::gen_specs(p, seed, n));
             }
@@ -169,6 +175,8 @@ pub fn cases(prop: &str, tier: Tier, seed: u64) -> Vec<CaseDesc> {
         }
         "C11" => {
             // cfg 90 = defaults + preserve_code_transform
+            out.extend(with_scenario(crate::census::leb_specs(!q), "rt:emit,gc,probe;cfg=90"));
+            out.extend(with_scenario(crate::census::leb_specs(false), "rt:emit,probe,ins;cfg=90"));
             out.extend(with_scenario(disk_corpus(false), "rt:emit,gc,probe;cfg=90"));
             for (p, nq, nt) in [("full", 1500, 60_000), ("gcgraph", 800, 30_000), ("tiny", 500, 20_000)] {
                 let specs = g(p, nq, nt);
@@ -217,11 +225,11 @@ pub fn cases(prop: &str, tier: Tier, seed: u64) -> Vec<CaseDesc> {
             }
         }
         "C08" => {
-            out.extend(with_scenario(disk_corpus(false), "rt:emit,emit2,fix,shift"));
+            out.extend(with_scenario(disk_corpus(false), "rt:emit,emit2,fix,shift,reedit"));
             for (p, nq, nt) in [("full", 1500, 80_000), ("customs", 800, 30_000), ("names", 800, 30_000), ("gcgraph", 500, 20_000)] {
                 let specs = g(p, nq, nt);
                 for (i, s) in specs.into_iter().enumerate() {
-                    out.push(CaseDesc { spec: s, scenario: format!("rt:emit,emit2,fix,shift;shift={}", 1 + (i % 7)) });
+                    out.push(CaseDesc { spec: s, scenario: format!("rt:emit,emit2,fix,shift,reedit;shift={}", 1 + (i % 7)) });
                 }
             }
         }
